@@ -230,6 +230,57 @@ func (c *Ctx) App(op Op, s Sort, args ...*Term) *Term {
 		}
 		return c.mk(t)
 	}
+	if s.K == KBV && len(args) == 2 && args[1].Op == OConst {
+		k := args[1].Val
+		w := s.W
+		switch op {
+		case OShl:
+			if k == 0 {
+				return args[0]
+			}
+			if k >= uint64(w) {
+				return c.Const(s, 0)
+			}
+			return c.Concat(c.Extract(args[0], w-1-int(k), 0), c.Const(BV(int(k)), 0))
+		case OLShr:
+			if k == 0 {
+				return args[0]
+			}
+			if k >= uint64(w) {
+				return c.Const(s, 0)
+			}
+			return c.ZExt(c.Extract(args[0], w-1, int(k)), w)
+		case OUDiv:
+			if k != 0 && k&(k-1) == 0 {
+				return c.App(OLShr, s, args[0], c.Const(s, uint64(bits.TrailingZeros64(k))))
+			}
+		case OURem:
+			if k != 0 && k&(k-1) == 0 {
+				n := bits.TrailingZeros64(k)
+				if n == 0 {
+					return c.Const(s, 0)
+				}
+				return c.ZExt(c.Extract(args[0], n-1, 0), w)
+			}
+		case OBAnd:
+			// mask of n low bits
+			if k != 0 && k&(k+1) == 0 {
+				n := bits.Len64(k)
+				if n >= w {
+					return args[0]
+				}
+				return c.ZExt(c.Extract(args[0], n-1, 0), w)
+			}
+		}
+	}
+	if op == OBAnd && args[0].Op == OConst && args[1].Op != OConst {
+		return c.App(OBAnd, s, args[1], args[0])
+	}
+	if op == OBOr && s.K == KBV {
+		if r := c.mergeOr(s, args[0], args[1]); r != nil {
+			return r
+		}
+	}
 	switch op {
 	case ONot:
 		if args[0].Op == ONot {
@@ -428,6 +479,9 @@ func (c *Ctx) Extract(a *Term, hi, lo int) *Term {
 		if a.Op == OZExt && lo >= in.Sort.W {
 			return c.Const(BV(hi-lo+1), 0)
 		}
+		if a.Op == OZExt && lo < in.Sort.W {
+			return c.ZExt(c.Extract(in, in.Sort.W-1, lo), hi-lo+1)
+		}
 	}
 	if a.Op == OConcat {
 		lw := a.Args[1].Sort.W
@@ -458,6 +512,97 @@ func (c *Ctx) Concat(hi, lo *Term) *Term {
 	return c.mk(&Term{Op: OConcat, Sort: s, Args: []*Term{hi, lo}})
 }
 func (c *Ctx) ZExt(a *Term, w int) *Term { return c.App(OZExt, BV(w), a) }
+
+type seg struct {
+	lo, w int
+	t     *Term
+}
+
+// placed decomposes t into non-overlapping segments placed at bit offsets, all other
+// bits being zero; ok=false if t has no such structure (it then occupies all bits).
+func placed(t *Term, depth int) ([]seg, bool) {
+	if t.Sort.W > 64 || depth > 12 {
+		return nil, false
+	}
+	switch t.Op {
+	case OConst:
+		if t.Val == 0 {
+			return nil, true
+		}
+		return nil, false
+	case OZExt:
+		if sg, ok := placed(t.Args[0], depth+1); ok {
+			return sg, true
+		}
+		return []seg{{0, t.Args[0].Sort.W, t.Args[0]}}, true
+	case OConcat:
+		hi, lo := t.Args[0], t.Args[1]
+		var out []seg
+		if sg, ok := placed(lo, depth+1); ok {
+			out = append(out, sg...)
+		} else {
+			out = append(out, seg{0, lo.Sort.W, lo})
+		}
+		if sg, ok := placed(hi, depth+1); ok {
+			for _, x := range sg {
+				out = append(out, seg{x.lo + lo.Sort.W, x.w, x.t})
+			}
+		} else {
+			out = append(out, seg{lo.Sort.W, hi.Sort.W, hi})
+		}
+		return out, true
+	}
+	return nil, false
+}
+
+// mergeOr rewrites a|b into a concatenation when both have disjoint placed segments.
+func (c *Ctx) mergeOr(s Sort, a, b *Term) *Term {
+	sa, oka := placed(a, 0)
+	sb, okb := placed(b, 0)
+	if !oka || !okb {
+		return nil
+	}
+	all := append(append([]seg{}, sa...), sb...)
+	// sort by lo (insertion sort, tiny)
+	for i := 1; i < len(all); i++ {
+		for j := i; j > 0 && all[j].lo < all[j-1].lo; j-- {
+			all[j], all[j-1] = all[j-1], all[j]
+		}
+	}
+	pos := 0
+	for _, x := range all {
+		if x.lo < pos {
+			return nil // overlap
+		}
+		pos = x.lo + x.w
+	}
+	if pos > s.W {
+		return nil
+	}
+	var res *Term
+	pos = 0
+	add := func(t *Term) {
+		if res == nil {
+			res = t
+		} else {
+			res = c.Concat(t, res)
+		}
+	}
+	for _, x := range all {
+		if x.lo > pos {
+			add(c.Const(BV(x.lo-pos), 0))
+		}
+		add(x.t)
+		pos = x.lo + x.w
+	}
+	if res == nil {
+		return c.Const(s, 0)
+	}
+	if pos < s.W {
+		res = c.ZExt(res, s.W)
+	}
+	return res
+}
 func (c *Ctx) SExt(a *Term, w int) *Term { return c.App(OSExt, BV(w), a) }
 
 func sx(v uint64, w int) int64 {
